@@ -287,7 +287,7 @@ def rot_specs(tier):
 
 # 90.4 / -0.2 / 179.55 deg: close to, but not, a quarter turn
 BASE_ROT = [[30.0, 'deg'], [90.0, 'deg'], [-123.4, 'deg'], [725.0, 'deg'], [1.0, 'rad'], [0.5, 'hourangle'], [90.4, 'deg'], [-0.2, 'deg'],
-            [179.55, 'deg']]
+            [179.55, 'deg'], [0.0, 'deg'], [-0.0, 'rad']]       # the null rotation is a rotation like any other: a new, independent region
 
 
 def rot_angles(tier, seed):
@@ -687,10 +687,43 @@ def check_rot(res, spec, pv, ang):
     if fp(reg) != f0:
         cx.bad('original_mutated', 'the fingerprint of the original region changed while the rotated copy was used '
                                    '(contains / area / rotate back)')
+    # the rotated region is the caller's: its coordinates, angle and metadata are edited in place -- the original stays as it was
+    try:
+        _edit_in_place(R)
+        if B is not None:
+            _edit_in_place(B)
+    except Exception:      # noqa: BLE001 -- read-only pieces are not edited
+        pass
+    if fp(reg) != f0:
+        cx.bad('original_mutated', 'the original region changed when the rotated region (or the one rotated back) was edited in place: '
+                                   'they share coordinate / angle / metadata objects')
     res.outcome(('rot', cls, ang[1] + '/' + ang[2], cx.ok))
     if res.states <= 2:
         res.sample({'case': case, 'n_queries': int(qx.size), 'n_wide_sure': int(wide.sum()),
                     'rotated': repr(R)[:300]})
+
+
+def _edit_in_place(r, depth=0):
+    import astropy.units as u
+    for name in getattr(r, '_params', ()):
+        v = getattr(r, name, None)
+        if hasattr(v, '_params') and depth < 3:
+            _edit_in_place(v, depth + 1)        # operands of a compound
+        elif hasattr(v, 'x') and hasattr(v, 'y'):
+            if np.ndim(v.x):
+                if v.x.flags.writeable:
+                    v.x[0] += 1000.0
+                    v.y[-1] -= 500.0
+            else:
+                v.x += 1000.0
+                v.y -= 500.0
+        elif isinstance(v, u.Quantity) and name == 'angle':
+            try:
+                v[...] = v + 7.0 * v.unit
+            except Exception:      # noqa: BLE001
+                pass
+    r.meta['text'] = 'edited in place'
+    r.visual['color'] = 'edited'
 
 
 # ============================================================== translation check ==
